@@ -517,6 +517,9 @@ pub const SOUP: &[&str] = &[
     "\"\"", "\"a\"", "\"a b\"", "\"\\n\"", "\"\\x41;\"", "\"\\x41\"", "\"\\q\"", "\"\\", "\"abc", "\"λ\"", "\"\\u00e9\"",
     "\"\\101\"", "\"\\xff\"", "\"\\N{U+3bb}\"", "\"\\^a\"", "\"a\\ b\"", "\"\\U0001F600\"", "\"\\xD800;\"", "\"\\x110000;\"",
     ".a:", "...:", ".b", "(a .b: c)", "12#t", "1#", ".#t", "-#t", "a .", "(a . b )", "(a . b ; c\n)", "\"\u{e9}\\101\"", "\"\\101\u{e9}\"", "\"\u{3bb}\\x41\"", "\"\\x41\\ \u{3bb}\"", "\"\\xe9;\"", "\"a\\x80;b\"", "0.0000001", "+1e-7", "#d5e-9",
+    // lead-ins and separators a transport may add; error arms of escapes; radix literals beyond 64 bits
+    "\u{feff}", "\0", "\u{a0}", "\u{2028}", "\x0B", "\x1A", "\u{feff}(a)", "\"\\U0FFFFFFF\"", "\"\\U00110000\"", "\"\\uD800\"", "\"\\777777777777\"", "\"\\N{U+110000}\"", "\"\\N{U+D800}\"", "\"\\N{LATIN}\"",
+    "?\\U0FFFFFFF", "?\\777", "?\\C-a", "?\\M-a", "#b1111111111111111111111111111111111111111111111111111111111111111111111", "#b1111111111111111111111111111111111111111111111111111111111111111111111e1", "#b11111111111111111111111111111111111111111111111111111111111111111111112", "#b1111111111111111111111111111111111111111111111111111111111111111111111.1", "#o777777777777777777777777777777", "#o7777777777777777777777777777778", "#o777777777777777777777777777777e2", "#x11111111111111111111.5", "#xffffffffffffffffffff", "#x11111111111111111111g", "1e+3", "2.5E+2",
     ";c\n", ";", "; (\n", "#|", "|", "||", "|a b|", "{", "}", "\\", "\\a", "@", ",@a", "^", "~", "_", "%",
 ];
 
